@@ -624,7 +624,8 @@ fn run_seconds(
 				});
 				impulse_at = Some(t);
 			}
-			let frames = ibs + (k * 7) % (ibs + 1);
+			// a third of the cases: a device that always asks for half an internal buffer
+			let frames = if case.seed % 3 == 0 { (ibs / 2).max(1) } else { ibs + (k * 7) % (ibs + 1) };
 			k += 1;
 			let rep = w.callback(frames, 2);
 			if let Some(p) = rep.panic {
@@ -833,7 +834,10 @@ fn run_history(r1: u32, r2: u32, effects: &[EffectSpec], on_main: bool, ibs: usi
 	let mut res = CaseResult::default();
 	let mut trace = Hasher64::new();
 	let mut streams: Vec<Vec<f32>> = vec![];
-	for (wi, start_rate) in [r2, r1].iter().enumerate() {
+	// world 0 runs at r2 from the start; world 1 starts at r1 and is switched to r2; world 2 starts
+	// at r2, is switched to r1 and back (a change away from the initial rate and back to it)
+	let histories: [(u32, Vec<u32>); 3] = [(r2, vec![]), (r1, vec![r2]), (r2, vec![r1, r2])];
+	for (wi, (start_rate, changes)) in histories.iter().enumerate() {
 		let cfg = WorldConfig {
 			sample_rate: *start_rate,
 			internal_buffer_size: ibs,
@@ -856,8 +860,17 @@ fn run_history(r1: u32, r2: u32, effects: &[EffectSpec], on_main: bool, ibs: usi
 				return res;
 			}
 		}
-		if wi == 1 {
-			w.exec(&Op::ChangeRate { hz: r2 });
+		for (ci, hz) in changes.iter().enumerate() {
+			w.exec(&Op::ChangeRate { hz: *hz });
+			if ci + 1 < changes.len() {
+				for k in 0..warm.max(1) {
+					let rep = w.callback(ibs + k, 2);
+					if let Some(p) = rep.panic {
+						res.fail(Violation::new("panic", format!("audio-panic: {}", panic_signature(&p)), p));
+						return res;
+					}
+				}
+			}
 		}
 		w.exec(&Op::PlayStatic {
 			track: Some(0),
@@ -883,25 +896,30 @@ fn run_history(r1: u32, r2: u32, effects: &[EffectSpec], on_main: bool, ibs: usi
 		res.sim_seconds += w.sim_seconds;
 		streams.push(s);
 	}
-	let (a, b) = (&streams[0], &streams[1]);
+	let a = &streams[0];
 	let mut nonsilent = false;
-	for (i, (x, y)) in a.iter().zip(b.iter()).enumerate() {
+	for (i, x) in a.iter().enumerate() {
 		trace.f32(*x);
 		nonsilent |= *x != 0.0;
+	}
+	'worlds: for (wi, b) in streams.iter().enumerate().skip(1) {
+	for (i, (x, y)) in a.iter().zip(b.iter()).enumerate() {
 		if !((x - y).abs() <= 1e-6 + 1e-4 * x.abs().max(y.abs())) && !(x.is_nan() && y.is_nan()) {
 			res.fail(Violation::new(
 				"seconds",
 				"rendering-depends-on-rate-history",
 				format!(
-					"frame {} channel {}: {x} in the world that ran at {r2} Hz from the start, {y} in the world that ran {warm} silent callbacks at {r1} Hz and was then switched to {r2} Hz; effects {:?} on {}",
+					"frame {} channel {}: {x} in the world that ran at {r2} Hz from the start, {y} in the world that {}; effects {:?} on {}",
 					i / 2,
 					i % 2,
+					if wi == 1 { format!("ran {warm} silent callbacks at {r1} Hz and was then switched to {r2} Hz") } else { format!("started at {r2} Hz, was switched to {r1} Hz and, silent callbacks later, back to {r2} Hz") },
 					effects.iter().map(|e| e.kind_name()).collect::<Vec<_>>(),
 					if on_main { "the main track" } else { "a sub-track" }
 				),
 			));
-			break;
+			break 'worlds;
 		}
+	}
 	}
 	if res.violation.is_none() {
 		res.hit("rate_history_twins_compared");
@@ -940,7 +958,7 @@ impl Check for C16 {
 		CheckInfo {
 			id: "C16",
 			level: "exploration",
-			rule: "five streams. history (1/8): the same scene (1..3 built-in effects at fixed parameters, optionally a sub-frame delay around a filter) rendered at rate r2 from the start and at r1 switched to r2 after a few silent callbacks - from the switch on both must render the same audio; reverb (1/16): a click through a reverb at two device rates, the delay between the first reflection in the left and in the right channel compared in seconds; orders (1/2): seeded sequences over {add (nested) track with a rate-probe effect (40% persist until their sounds finish), play a short sound on a track, add send track with one, drop a track handle (the track lives on while a track below it is alive or - if it persists - a sound on it is unfinished or still queued), change the device sample rate, callback} from 8 kHz to 192 kHz; sched (1/4): a gameplay task adding (nested) tracks against a device task changing the rate and running callbacks, under seeded random schedules at the yield points between reading the shared sample rate and enqueueing the track and inside on_change_sample_rate; seconds (1/4): one scene described in seconds (finite sound at any source rate and playback rate, clock, volume tween, delay echo, a tone behind a low-pass filter) rendered in three worlds at different device rates, the third changing its rate mid-stream; non-trivial = at least two effect process calls checked / worlds compared; distinct = hash of the per-callback (rate, probes) sequence, of the yield trace, of the scene parameters",
+			rule: "five streams. history (1/8): the same scene (1..3 built-in effects at fixed parameters, optionally a sub-frame delay around a filter) rendered at rate r2 from the start, at r1 switched to r2 after a few silent callbacks, and at r2 switched to r1 and back - from the last switch on all must render the same audio; reverb (1/16): a click through a reverb at two device rates, the delay between the first reflection in the left and in the right channel compared in seconds; orders (1/2): seeded sequences over {add (nested) track with a rate-probe effect (40% persist until their sounds finish), play a short sound on a track, add send track with one, drop a track handle (the track lives on while a track below it is alive or - if it persists - a sound on it is unfinished or still queued), change the device sample rate, callback} from 8 kHz to 192 kHz; sched (1/4): a gameplay task adding (nested) tracks against a device task changing the rate and running callbacks, under seeded random schedules at the yield points between reading the shared sample rate and enqueueing the track and inside on_change_sample_rate; seconds (1/4): one scene described in seconds (finite sound at any source rate and playback rate, clock, volume tween, delay echo, a tone behind a low-pass filter) rendered in three worlds at different device rates, the third changing its rate mid-stream, with callbacks of one to two internal buffers or (a third of the cases) of a constant half buffer; non-trivial = at least two effect process calls checked / worlds compared; distinct = hash of the per-callback (rate, probes) sequence, of the yield trace, of the scene parameters",
 			assumptions: vec![
 				"seconds-domain comparisons allow two callbacks plus a few frames of slack (events are issued at callback boundaries)".into(),
 				"the delay effect restarts with an empty line when the rate changes; the echo is measured from a click issued after the change".into(),
